@@ -43,7 +43,7 @@ def reset():
 def round2_demos():
     """Rounds 2 and 3: demo command taken from the DEMO_CMD line of the agent's NOTES.md."""
     d = {}
-    for rnd in (2, 3, 4, 5, 6, 7):
+    for rnd in (2, 3, 4, 5, 6, 7, 8):
         for pid in ["C01","C02","C03","C04","C06","C08","C09","C12","C14","C15","C16","C20"]:
             for var in "AB":
                 notes = f"/tmp/wt{rnd}-{pid}/seeded/{var}/NOTES.md"
@@ -57,8 +57,9 @@ def main():
     all_demos = dict(DEMOS)
     all_demos.update(round2_demos())
     for key, demo_cmd in all_demos.items():
-        if only and key not in only and not (only == ["round2"] and key.startswith("r2-")) and not (only == ["round3"] and key.startswith("r3-")) and not (only == ["round4"] and key.startswith("r4-")) and not (only == ["round5"] and key.startswith("r5-")) and not (only == ["round6"] and key.startswith("r6-")) and not (only == ["round7"] and key.startswith("r7-")): continue
-        if key[:3] in ("r2-","r3-","r4-","r5-","r6-","r7-"):
+        round_arg = len(only) == 1 and re.fullmatch(r"round\d", only[0]) is not None
+        if only and key not in only and not (round_arg and key.startswith("r" + only[0][5:] + "-")): continue
+        if re.match(r"r\d-", key):
             rnd, pid, var = key.split("-")
             src = f"/tmp/wt{rnd[1]}-{pid}/seeded/{var}"
         else:
@@ -68,7 +69,7 @@ def main():
             continue
         out_dir = f"/verif/seeded/{key}"
         meta_path = f"{out_dir}/meta.json"
-        if os.path.exists(meta_path) and (not only or only in (["round2"], ["round3"], ["round4"], ["round5"], ["round6"], ["round7"])):
+        if os.path.exists(meta_path) and (not only or round_arg):
             print(key, "already confirmed"); continue
         t0 = time.time()
         reset()
